@@ -308,6 +308,78 @@ func c14Go(name string, f func() error) *c14Call {
 	return c
 }
 
+// early <eof|junk>: the connection breaks at the moment the handshake completes - after newSession has registered the
+// connection with the event loop and before it returns (a file-mapping client finishes its handshake without a reply)
+func (c *c14Run) early(f []string) string {
+	kind := f[1]
+	if kind != "eof" && kind != "junk" {
+		return "bad-op"
+	}
+	n := atomic.AddUint64(&c14Seq, 1)
+	prefix := fmt.Sprintf("/dev/shm/verif_c14y_%d_%d", os.Getpid(), n)
+	conn, raw, err := c12SocketPair()
+	if err != nil {
+		return "bad-op"
+	}
+	defer syscall.Close(raw)
+	cfg := c12Config(prefix, MemMapTypeDevShmFile)
+	reached := false
+	vRegisteredHook = func(s *Session) {
+		reached = true
+		if kind == "eof" {
+			syscall.Shutdown(raw, syscall.SHUT_RDWR)
+		} else {
+			h := header(make([]byte, headerSize))
+			h.encode(headerSize, 3, eventType(99))
+			blockWriteFull(raw, h)
+		}
+		// the event loop sees it, closes the session and runs its clean-up
+		for t0 := time.Now(); time.Since(t0) < 3*time.Second; {
+			s.shutdownLock.Lock()
+			gone := s.queueManager == nil
+			s.shutdownLock.Unlock()
+			if gone {
+				break
+			}
+			time.Sleep(500 * time.Microsecond)
+		}
+	}
+	defer func() { vRegisteredHook = nil }()
+	call := c14Go("newSession", func() error {
+		s, err := newSession(cfg, conn, true)
+		if s != nil {
+			c12CloseSession(s)
+		}
+		return err
+	})
+	select {
+	case err = <-call.done:
+	case <-time.After(8 * time.Second):
+		c.setFail("newsession-hangs-on-early-break", "newSession did not return within 8s of a connection that broke as the handshake completed")
+		return "hang"
+	}
+	vRegisteredHook = nil
+	c.tags["early-"+kind] = true
+	if !reached {
+		c.tags["early-not-reached"] = true
+	}
+	if call.pan != nil {
+		// S (C14): if the connection breaks at any moment nothing panics
+		c.setFail("newsession-panics-on-early-break", fmt.Sprintf("the connection broke (%s) right after newSession registered it with the event loop: the session was closed by the event loop and newSession panicked: %v", map[string]string{"eof": "peer closed", "junk": "peer sent an invalid event"}[kind], call.pan))
+		return "panic"
+	}
+	for t0 := time.Now(); time.Since(t0) < 3*time.Second && c12CountFiles(prefix) != 0; {
+		time.Sleep(time.Millisecond)
+	}
+	if k := c12CountFiles(prefix); k != 0 {
+		c.setFail("close-leaves-resources", fmt.Sprintf("the session that broke as its handshake completed is closed, %d file(s) with its prefix remain in /dev/shm", k))
+	}
+	if err != nil {
+		return "err"
+	}
+	return "ok"
+}
+
 func (c *c14Run) e2e(f []string) string {
 	mt := MemMapTypeDevShmFile
 	if f[1] == "memfd" {
@@ -542,7 +614,7 @@ func c14Exec(ops []string) vResult {
 	internalLogger = &logger{"", io.Discard, 3}
 	n := atomic.AddUint64(&c14Seq, 1)
 	c := &c14Run{tags: map[string]bool{}, prefix: fmt.Sprintf("/dev/shm/verif_c14_%d_%d", os.Getpid(), n)}
-	if len(ops) > 0 && strings.HasPrefix(ops[0], "e2e ") {
+	if len(ops) > 0 && (strings.HasPrefix(ops[0], "e2e ") || strings.HasPrefix(ops[0], "early ")) {
 		c12WarmOnce.Do(func() {
 			w := &c12Run{tags: map[string]bool{}}
 			w.scenario([]string{"pair", "file"})
@@ -553,6 +625,8 @@ func c14Exec(ops []string) vResult {
 			f := vFields(op)
 			if len(f) == 5 && f[0] == "e2e" {
 				out = append(out, c.e2e(f))
+			} else if len(f) == 2 && f[0] == "early" {
+				out = append(out, c.early(f))
 			} else {
 				out = append(out, "bad-op")
 			}
@@ -604,6 +678,9 @@ func c14Exec(ops []string) vResult {
 }
 
 func c14Gen(r *rand.Rand, tier string, idx int) []string {
+	if idx%40 == 7 {
+		return []string{"early " + []string{"eof", "junk"}[r.Intn(2)]}
+	}
 	if idx%10 == 9 {
 		mt := []string{"file", "memfd"}[r.Intn(2)]
 		mode := []string{"peerdeath", "closeclient", "closeserver"}[r.Intn(3)]
